@@ -90,6 +90,24 @@ func encodeCSV(ctx context.Context, fp io.Writer, view *View, options option.Exp
 	return nil
 }
 
+// encodedLineBreak returns the line break of the export options in their encoding (without a byte order mark).
+func encodedLineBreak(options option.ExportOptions) []byte {
+	enc := options.Encoding
+	switch enc {
+	case text.UTF8M:
+		enc = text.UTF8
+	case text.UTF16, text.UTF16BEM:
+		enc = text.UTF16BE
+	case text.UTF16LEM:
+		enc = text.UTF16LE
+	}
+	lineBreak := []byte(options.LineBreak.Value())
+	if b, err := text.Encode(lineBreak, enc); err == nil {
+		return b
+	}
+	return lineBreak
+}
+
 func encodeFixedLengthFormat(ctx context.Context, fp io.Writer, view *View, options option.ExportOptions) error {
 	if options.DelimiterPositions == nil {
 		m := fixedlen.NewMeasure()
